@@ -309,6 +309,12 @@ func (f *frame) run(st0 *State) {
 		}
 		if li != nil {
 			// ---- loop header: check invariants on entry, havoc, assume ----
+			if f.top {
+				if vc.loopPre == nil {
+					vc.loopPre = map[int]*State{}
+				}
+				vc.loopPre[li.ordinal] = st.Clone()
+			}
 			for _, i := range incs {
 				f.checkInvariants(li, b, i.idx, i.guard, i.st, "entry", nil)
 			}
